@@ -18,6 +18,10 @@ structure St where
   s6 : Sys := {}
   r4 : RefSys := {}
   r6 : RefSys := {}
+  /-- socket-level run: messages of one operation are compared as sorted lists, the pairs a close
+  sends are not visible -/
+  net : Bool := false
+  afterBurst : Bool := false
 
 def St.sys (s : St) (fam : String) : Sys := if fam = "4" then s.s4 else s.s6
 def St.ref (s : St) (fam : String) : RefSys := if fam = "4" then s.r4 else s.r6
@@ -37,6 +41,12 @@ def msgText : Msg → String
   | .error to h => s!"E:{connText to}:{match h with | some x => natHex 40 x | none => "-"}"
 
 def msgsText (l : List Msg) : String := if l.isEmpty then "-" else String.intercalate " " (l.map msgText)
+
+def sortStrs (l : List String) : List String := (l.toArray.qsort (· < ·)).toList
+
+/-- as `msgsText`; in a socket-level run sorted, as the harness prints what the clients received -/
+def msgsTextN (net : Bool) (l : List Msg) : String :=
+  if l.isEmpty then "-" else String.intercalate " " (if net then sortStrs (l.map msgText) else l.map msgText)
 
 def parseConn (s : String) : ConnId :=
   match s.splitOn "." with
@@ -96,7 +106,7 @@ def stepAnn (s : St) (a : List String) (out : List String) : St × Verdict × Li
     let n := min (req.offers.getD []).length s.cfg.maxOffers
     let pairs := if req.offers.isSome then offsetPairs lenAfter n else [(0, 0)]
     let results : List (Except Panic (Sys × List Msg)) := pairs.map (fun (o1, o2) => sysStep s.cfg sys (.ann conn allowedB req nowN o1 o2))
-    let hit := results.find? (fun x => match x with | .ok (_, msgs) => msgsText msgs = impl | .error _ => false)
+    let hit := results.find? (fun x => match x with | .ok (_, msgs) => msgsTextN s.net msgs = impl | .error _ => false)
     let first := results.head?
     -- reference: receivers as the implementation chose them
     let tos : List ConnId := out.filterMap (fun t => match t.splitOn ":" with | ["O", c, _, _, _, _] => some (parseConn c) | _ => none)
@@ -122,18 +132,19 @@ def stepAnn (s : St) (a : List String) (out : List String) : St × Verdict × Li
       let (ref', rmsgs) := refStep s.cfg ref recv (.ann conn allowedB req nowN 0 0)
       let recvChecked : Bool := ignored || !allowedB || twoPid || req.stopped || decide (Ref.recvOk s.cfg ref'.w.entries req recv)
       let cls := (if ignored then " class=foreign-owner-announce-not-ignored" else "")
-      if msgsText rmsgs ≠ impl then
+        ++ (if twoPid ∧ allowedB ∧ impl = "-" then " class=second-peer-id-error-reply-lost" else "")
+      if msgsTextN s.net rmsgs ≠ impl then
         (match hit with
-         | some (.ok (sys', _)) => (s.set fam sys' ref', .specfail s!"ref={msgsText rmsgs}{cls}", notes)
+         | some (.ok (sys', _)) => (s.set fam sys' ref', .specfail s!"ref={msgsTextN s.net rmsgs}{cls}", notes)
          | _ => (match first with
-            | some (.ok (sys', _)) => (s.set fam sys' ref', .specfail s!"ref={msgsText rmsgs}{cls}", notes)
-            | _ => (s.set fam sys ref', .specfail s!"ref={msgsText rmsgs}{cls}", notes)))
+            | some (.ok (sys', _)) => (s.set fam sys' ref', .specfail s!"ref={msgsTextN s.net rmsgs}{cls}", notes)
+            | _ => (s.set fam sys ref', .specfail s!"ref={msgsTextN s.net rmsgs}{cls}", notes)))
       else if !recvChecked then
         (s, .specfail s!"offer receivers {recv.map (natHex 40)} are not an allowed choice (distinct, stored, not the sender, min(offers, max_offers, others) many)", notes)
       else
         match hit, first with
         | some (.ok (sys', _)), _ => (s.set fam sys' ref', .ok, notes)
-        | _, some (.ok (sys', msgs)) => (s.set fam sys' ref', .mismatch s!"model={msgsText msgs} (for the first of {pairs.length} draws)", notes)
+        | _, some (.ok (sys', msgs)) => (s.set fam sys' ref', .mismatch s!"model={msgsTextN s.net msgs} (for the first of {pairs.length} draws)", notes)
         | _, some (.error p) => (s.set fam sys ref', .mismatch s!"model=panic:{repr p}", notes)
         | _, none => (s, .bad "no draws", notes)
   | _ => (s, .bad "wann arity", [])
@@ -157,7 +168,11 @@ def stepScr (s : St) (a : List String) (out : List String) : St × Verdict × Li
     | none => (s, .specfail "a scrape must be answered by exactly one scrape reply to the requester", notes)
     | some fs =>
       if !Ref.scrapeOk s.cfg ref.w hashes fs then
-        (s, .specfail s!"ref={filesText (httpScrapeFiles (Ref.scrapeFiles s.cfg ref.w hashes))}", notes)
+        (s, .specfail s!"ref={filesText (httpScrapeFiles (Ref.scrapeFiles s.cfg ref.w hashes))}{if s.afterBurst then " class=peers-of-a-dropped-connection-remain" else ""}", notes)
+      else if s.afterBurst then
+        -- which of the unanswered announces of the burst reached the swarm worker (and left an empty
+        -- torrent behind) is not observable: only the reference's relation is checked
+        (s, .ok, notes ++ ["scrape-after-burst"])
       else match sysStep s.cfg sys (.scr conn hashes) with
         | .ok (_, msgs) => if msgsText msgs = impl then (s, .ok, notes) else (s, .mismatch s!"model={msgsText msgs}", notes)
         | .error p => (s, .mismatch s!"model=panic:{repr p}", notes)
@@ -182,7 +197,10 @@ def stepClose (s : St) (a : List String) (out : List String) : St × Verdict × 
     let (ref', _) := refStep s.cfg ref [] (.close conn)
     match sysStep s.cfg sys (.close conn) with
     | .ok (sys', _) =>
-      if pairsText (bookOf sys conn) ≠ impl then (s.set fam sys' ref', .mismatch s!"model pairs={pairsText (bookOf sys conn)}", notes)
+      if s.net then
+        (if impl ≠ "-" then (s.set fam sys' ref', .specfail s!"messages delivered because a connection closed: {impl}", notes)
+         else (s.set fam sys' ref', .ok, notes))
+      else if pairsText (bookOf sys conn) ≠ impl then (s.set fam sys' ref', .mismatch s!"model pairs={pairsText (bookOf sys conn)}", notes)
       else (s.set fam sys' ref', .ok, notes)
     | .error p => (s.set fam sys ref', .mismatch s!"model=panic:{repr p}", notes)
   | _ => (s, .bad "wclose arity", [])
@@ -207,8 +225,29 @@ def stepCln (s : St) (a : List String) : St × Verdict × List String :=
 def step (s : St) (ts : List String) : St × Verdict × List String :=
   let (a, out) := splitArrow ts
   match a with
-  | ["cfg", "ws", mo, ms, pa, oa] => ({ s with cfg := ⟨nat! mo, nat! ms, nat! pa, nat! oa⟩ }, .skip, ["history"])
-  | ["new"] => ({ cfg := s.cfg }, .skip, [])
+  | ["cfg", "ws", mo, ms, pa, oa] => ({ s with cfg := ⟨nat! mo, nat! ms, nat! pa, nat! oa⟩, net := false }, .skip, ["history"])
+  | ["cfg", "wsnet", mo, ms] => ({ s with cfg := ⟨nat! mo, nat! ms, 180, 120⟩, net := true }, .skip, ["history"])
+  | "net" :: rest =>
+    if rest.any (fun t => t.startsWith "START-FAILED" ∨ t.startsWith "TRACKER-EXITED") then
+      (s, .specfail s!"tracker process: {rest}", ["net-problem"])
+    else (s, .skip, rest.filter (fun t => t.startsWith "socket_workers" ∨ t.startsWith "swarm_workers" ∨ t = "burst=true"))
+  | ["new"] => ({ cfg := s.cfg, net := s.net }, .skip, [])
+  | ["wbad", _fam, consumer, slot, _hex] =>
+    -- an unparseable message: exactly one error reply, to the sender, nothing else happens
+    let want := s!"E:{consumer}.{slot}:-"
+    let impl := if out.isEmpty then "-" else String.intercalate " " out
+    if impl = want then (s, .ok, ["wbad"]) else (s, .specfail s!"ref={want}", ["wbad"])
+  | ["wburst", fam, consumer, slot, hs, pidS] =>
+    -- announces sent without waiting, then the connection is reset: afterwards nothing of it is stored
+    let conn : ConnId := ⟨nat! consumer, nat! slot⟩
+    let go (acc : Sys × RefSys) (h : Nat) : Sys × RefSys :=
+      let req : AnnReq := ⟨h, hexNat pidS, false, some 5, none, none⟩
+      let sys' := match sysStep s.cfg acc.1 (.ann conn true req 0 0 0) with | .ok (x, _) => x | .error _ => acc.1
+      (sys', (refStep s.cfg acc.2 [] (.ann conn true req 0 0 0)).1)
+    let (sys1, ref1) := (hexNatList "," hs).foldl go (s.sys fam, s.ref fam)
+    let sys2 := match sysStep s.cfg sys1 (.close conn) with | .ok (x, _) => x | .error _ => sys1
+    let ref2 := (refStep s.cfg ref1 [] (.close conn)).1
+    ({ s.set fam sys2 ref2 with afterBurst := true }, .ok, ["wburst"])
   | "wann" :: rest => stepAnn s rest out
   | "wscr" :: rest => stepScr s rest out
   | "wclose" :: rest => stepClose s rest out
